@@ -1,9 +1,5 @@
 // harness: c02_predicates::c02_num_u64_negative_literal_witness (feature c02)
 // replay: cd /verif && ./check --replay /verif/evidence/replays/C02/c02_num_u64_negative_literal_witness.rs
-/// Test generated for harness `c02_predicates::c02_num_u64_negative_literal_witness` 
-///
-/// Check for `assertion`: ""segment tier equals the integer comparison (u64 column)""
-
 #[test]
 fn kani_concrete_playback_c02_num_u64_negative_literal_witness_14408477735121401096() {
     let concrete_vals: Vec<Vec<u8>> = vec![
